@@ -9,18 +9,37 @@
 //          (S), then the same calls from T threads at once (C), then alone again (A). Every thread has its own function
 //          objects / buffers / logger; the solver, loss, tensors, dataset and fitted model are shared.
 //   wfit <wlearner> <seed> <samples> <d> <ncat> <task> <dup> <reps> <nconf> {<dsthreads> <hwcap> <ncpus> <delay>}*nconf
-//       -> `ok <nconf> {<reps> {<score> <pred-hash> <nf> f… <nf> canonical f…}*reps}*nconf`
+//       -> `ok <nconf> {<reps> {<score> <pred-hash> 1 <nf> f…}*reps}*nconf`      (default criterion; bit-identical inputs)
 //   fit linear <seed> <samples> <d> <ncat> <task> <loss> <folds> <split_seed> <model> <scaling> <solver> <eps> <max_evals>
 //              <noise> <batch> <dup> <nconf> {<dsthreads> <hwcap> <ncpus> <delay>}*nconf
 //   fit gboost <seed> <samples> <d> <ncat> <task> <loss> <folds> <split_seed> <max_rounds> <patience> <wscale> <shrinkage>
-//              <subsample> <protos,…> <gseed> <noise> <batch> <dup> <nconf> {<dsthreads> <hwcap> <ncpus> <delay>}*nconf
-//       -> `ok <nconf> {C <dataset pool size> <max pool size> <trials> <optimum trial> F <k> {<nf> f…}*k G <k> {<nf> f…}*k
-//                       P <n> p…}*nconf`
+//              <subsample> <protos,…> <criterion> <gseed> <noise> <batch> <dup> <nconf> {<dsthreads> <hwcap> <ncpus> <delay>}*nconf
+//       -> `ok <nconf> {C <dataset pool size> <max pool size> <trials> <optimum trial> F <k> {<nf> f…}*k P <n> p… Z <z> D …}*nconf`
 //          a configuration = (threads of the dataset's pool, cap on pool_t::max_size() — i.e. the size of the pool ml::tune
-//          creates itself —, number of CPUs the process may run on, per-mille probability of a delay at every pool event)
+//          creates itself —, number of CPUs the process may run on, per-mille probability of a delay at every pool event);
+//          `noise`: amplitude of the uniform noise added to the planted target; for classification also the probability
+//          with which a label is flipped (non-separable data).
+//          Z = number of boosting rounds with a degenerate scale (see `degenerate_scalings`);
+//          D = how the weak-learner fits of this configuration relate to those of the first (reference) configuration. The
+//          prototypes are wrapped into a pass-through decorator (`traced_wlearner_t`) that records the inputs (fit samples,
+//          gradients) and the outcome (score, fitted learner) of EVERY successful weak-learner fit of the run - every booster
+//          (trial, fold), every round, kept by early stopping or not. A fit is matched with the reference's fits of the same
+//          prototype on the same fit samples whose gradients agree within 1e-6 (relative, max-norm):
+//            `D ref` | `D same <fits> <matched> <max gdiff>`: every matched fit has a partner that fitted the same structure
+//              (prototype, features, thresholds, hashes, tree nodes)
+//            | `D flip <fits> <matched> <flips> <proto> <gdiff> <same> <score ref> <score cfg> <mC> <mR>`: <flips> matched fits
+//              fitted another structure than all their partners (or than a partner with bit-identical inputs); the numbers of the
+//              worst one: gdiff = relative max-norm difference of the gradients, same = 1 when they are bit-identical, mC = (RSS of
+//              the REFERENCE's learner on this configuration's inputs − RSS of this configuration's own learner) / Σ residual²,
+//              mR the other way round (the candidates of one prototype have the same number of parameters: every criterion is
+//              monotone in the RSS)
 //   reduce sum <samples> <W> <D> <K> {<worker> <v_1 … v_D>}*K      nano::sum_reduce on linear::accumulator_t for an explicit schedule
-//   reduce min <W> <K> {<worker> <score> <feature>}*K              nano::min_reduce on first-best caches for an explicit schedule
+//   reduce min <W> <K> {<worker> <score> <feature>}*K              nano::min_reduce_feature on first-best caches for an explicit schedule
+//   reduce minlex <W> <K> {<worker> <score> <feature>}*K           the same on caches updated with the lexicographic test of table.cpp
 //   shared setlabel <T> <seed>                                     (never generated: demonstration of feature_t::set_label)
+//   wtie mclassfirst <wlearner> <dsthreads> <reps>                 table fit on a dataset whose multi-label features (indices 0, 1)
+//                                                                   precede the single-label ones (2, 3); features 0 and 3 tie
+//                                                                   exactly -> `ok <reps> f…` (before 5de0896: 3 or 0 by the schedule)
 //
 // pool_t::max_size() is std::thread::hardware_concurrency(); the hook H1b of DESIGN.md (an env override) does not exist in
 // /repo, so this harness INTERPOSES std::thread::hardware_concurrency at link time (the definition below wins over the one
@@ -28,6 +47,7 @@
 #include "common.h"
 #include <atomic>
 #include <chrono>
+#include <cstdlib>
 #include <functional>
 #include <nano/core/parallel.h>
 #include <nano/core/reduce.h>
@@ -35,8 +55,10 @@
 #include <nano/dataset/iterator.h>
 #include <nano/datasource.h>
 #include <nano/function.h>
+#include <any>
+#include <mutex>
 #include <nano/gboost/model.h>
-#include <nano/generator/elemwise_identity.h>
+#include <nano/gboost/result.h>
 #include <nano/generator/pairwise_product.h>
 #include <nano/linear.h>
 #include <nano/linear/accumulator.h>
@@ -46,7 +68,14 @@
 #include <nano/solver.h>
 #include <nano/splitter.h>
 #include <nano/tuner.h>
+#include <nano/generator/elemwise_identity.h>
 #include <nano/wlearner.h>
+#include <nano/wlearner/affine.h>
+#include <nano/wlearner/criterion.h>
+#include <nano/wlearner/dtree.h>
+#include <nano/wlearner/hinge.h>
+#include <nano/wlearner/stump.h>
+#include <nano/wlearner/table.h>
 #include <sched.h>
 #include <thread>
 #include <unistd.h>
@@ -544,8 +573,9 @@ std::string op_shared_loss(toks_t& toks)
 
 // ---- synthetic data ---------------------------------------------------------------------------------------------------
 // `d` continuous features, `ncat` categorical features with 3 classes, then the target: a scalar (planted affine + table
-// function plus uniform noise) or a class label. With `dup` the continuous features with an even index are bit-identical
-// copies of feature 0 (exact score ties between distinct features).
+// function plus uniform noise of amplitude `noise`) or a class label (of the planted function plus noise, flipped /
+// re-drawn with probability `noise` so that no weak learner separates the classes). With `dup` the continuous features
+// with an even index are bit-identical copies of feature 0 (exact score ties between distinct features).
 class synth_datasource_t final : public datasource_t
 {
 public:
@@ -631,17 +661,21 @@ private:
                 y += tables[static_cast<size_t>(3 * i + c)];
             }
             y += m_noise * rng.uniform(-1.0, 1.0);
+            const auto flip = rng.unit() < m_noise;
+            const auto draw = rng.u64();
             if (m_classes == 0)
             {
                 set(sample, itarget, y);
             }
             else if (m_classes == 2)
             {
-                set(sample, itarget, static_cast<int32_t>(y < bias ? 0 : 1));
+                const auto label = static_cast<int32_t>(y < bias ? 0 : 1);
+                set(sample, itarget, flip ? 1 - label : label);
             }
             else
             {
-                set(sample, itarget, static_cast<int32_t>(y < bias - 0.4 ? 0 : (y < bias + 0.4 ? 1 : 2)));
+                const auto label = static_cast<int32_t>(y < bias - 0.4 ? 0 : (y < bias + 0.4 ? 1 : 2));
+                set(sample, itarget, flip ? static_cast<int32_t>(draw % 3U) : label);
             }
         }
     }
@@ -691,17 +725,6 @@ dataset_t make_dataset(const datasource_t& datasource, const size_t threads, con
         dataset.add<pairwise_product_generator_t>();
     }
     return dataset;
-}
-
-// with duplicated columns: map a dataset feature to the first of its bit-identical copies
-tensor_size_t canonical_feature(const tensor_size_t feature, const data_args_t& a, const bool dup)
-{
-    if (!dup || feature < a.ncat)
-    {
-        return feature;
-    }
-    const auto i = feature - a.ncat;
-    return (i < a.d && i % 2 == 0) ? a.ncat : feature;
 }
 
 indices_t subset(const tensor_size_t total, const uint64_t seed, const bool all)
@@ -888,7 +911,7 @@ indices_t fit_samples(const tensor_size_t total)
     return samples;
 }
 
-void print_features(out_t& out, const std::vector<indices_t>& lists, const data_args_t& a, const bool dup, const bool canonical)
+void print_features(out_t& out, const std::vector<indices_t>& lists)
 {
     out << static_cast<long long>(lists.size());
     for (const auto& features : lists)
@@ -896,24 +919,316 @@ void print_features(out_t& out, const std::vector<indices_t>& lists, const data_
         out << static_cast<long long>(features.size());
         for (tensor_size_t i = 0; i < features.size(); ++i)
         {
-            out << (canonical ? canonical_feature(features(i), a, dup) : features(i));
+            out << features(i);
         }
     }
 }
 
 void print_fit(out_t& out, const dataset_t& dataset, const ml::result_t& result, const std::vector<indices_t>& features,
-               const tensor4d_t& predictions, const data_args_t& a, const bool dup)
+               const tensor4d_t& predictions)
 {
     out << "C" << static_cast<long long>(dataset.concurrency()) << static_cast<long long>(parallel::pool_t::max_size())
         << result.trials() << result.optimum_trial();
     out << "F";
-    print_features(out, features, a, dup, false);
-    out << "G";
-    print_features(out, features, a, dup, true);
+    print_features(out, features);
     out << "P" << static_cast<long long>(predictions.size());
     for (tensor_size_t i = 0; i < predictions.size(); ++i)
     {
         out << predictions(i);
+    }
+}
+
+// ---- tracing every weak-learner fit of a boosting run through a pass-through decorator of the prototypes ---------------
+struct call_rec_t
+{
+    std::string m_proto;     ///< type id of the wrapped weak learner
+    scalar_t    m_score{0};  ///< the value returned by the real fit
+    std::string m_structure; ///< the discrete part of what was fitted: features, thresholds, hashes, tree nodes
+    uint64_t    m_shash{0};  ///< hash of the fit samples
+    indices_t   m_samples;   ///< the fit samples
+    tensor4d_t  m_gradients; ///< the gradients
+    rwlearner_t m_fitted;    ///< clone of the wrapped learner right after the fit (before any scaling)
+    std::atomic<bool> m_predicted{false}; ///< gboost evaluated it on the samples: it won its boosting round
+    std::atomic<bool> m_scaled{false};    ///< … and was scaled: the round was completed
+    std::atomic<bool> m_tiny{false};      ///< … by a factor below 1e-10
+};
+
+using rcall_rec_t = std::shared_ptr<call_rec_t>;
+using call_log_t  = std::vector<rcall_rec_t>;
+
+std::mutex g_log_mutex;
+call_log_t g_log; ///< the successful weak-learner fits of the running `fit gboost` configuration (any thread, any booster)
+
+std::string structure_of(const wlearner_t& wl)
+{
+    std::string s = wl.type_id() + ":";
+    for (const auto f : wl.features())
+    {
+        s += std::to_string(f) + ",";
+    }
+    if (const auto* const p = dynamic_cast<const stump_wlearner_t*>(&wl); p != nullptr)
+    {
+        s += "t" + vh::f2h(p->threshold());
+    }
+    if (const auto* const p = dynamic_cast<const hinge_wlearner_t*>(&wl); p != nullptr)
+    {
+        s += "t" + vh::f2h(p->threshold()) + (p->hinge() == hinge_type::left ? "L" : "R");
+    }
+    if (const auto* const p = dynamic_cast<const table_wlearner_t*>(&wl); p != nullptr)
+    {
+        for (const auto h : p->hashes())
+        {
+            s += "h" + std::to_string(static_cast<unsigned long long>(h));
+        }
+        for (const auto t : p->hash2tables())
+        {
+            s += "m" + std::to_string(t);
+        }
+    }
+    if (const auto* const p = dynamic_cast<const dtree_wlearner_t*>(&wl); p != nullptr)
+    {
+        for (const auto& node : p->nodes())
+        {
+            s += "n" + std::to_string(node.m_feature) + "/" + vh::f2h(node.m_threshold) + "/" + std::to_string(node.m_next) + "/" +
+                 std::to_string(node.m_table);
+        }
+    }
+    return s;
+}
+
+// forwards everything to the wrapped (real) weak learner; only remembers what went into a fit and what came out
+class traced_wlearner_t final : public wlearner_t
+{
+public:
+    explicit traced_wlearner_t(rwlearner_t inner)
+        : wlearner_t("traced")
+        , m_inner(std::move(inner))
+    {
+    }
+
+    traced_wlearner_t(const traced_wlearner_t& other)
+        : wlearner_t(other)
+        , m_inner(other.m_inner->clone())
+        , m_rec(other.m_rec)
+    {
+    }
+
+    traced_wlearner_t& operator=(const traced_wlearner_t&) = delete;
+
+    rwlearner_t clone() const override { return std::make_unique<traced_wlearner_t>(*this); }
+
+    void scale(const vector_t& scale) override
+    {
+        if (std::getenv("C18_TRACE") != nullptr) // debugging aid
+        {
+            std::fprintf(stderr, "SCALE thread=%zx %s x0=%.17g n=%lld\n", std::hash<std::thread::id>{}(std::this_thread::get_id()) & 0xffffU,
+                         structure_of(*m_inner).c_str(), scale(0), static_cast<long long>(scale.size()));
+        }
+        if (m_rec)
+        {
+            m_rec->m_scaled = true;
+            if (scale.min() < 1e-10)
+            {
+                m_rec->m_tiny = true;
+            }
+        }
+        m_inner->scale(scale);
+    }
+
+    indices_t features() const override { return m_inner->features(); }
+
+    bool try_merge(const rwlearner_t& other) override
+    {
+        const auto* const pother = dynamic_cast<const traced_wlearner_t*>(other.get());
+        return pother != nullptr && m_inner->try_merge(pother->m_inner);
+    }
+
+protected:
+    scalar_t do_fit(const dataset_t& dataset, const indices_t& samples, const tensor4d_t& gradients) override
+    {
+        const auto score = m_inner->fit(dataset, samples, gradients);
+        m_rec.reset();
+        if (score != wlearner_t::no_fit_score())
+        {
+            auto rec         = std::make_shared<call_rec_t>();
+            rec->m_proto     = m_inner->type_id();
+            rec->m_score     = score;
+            rec->m_structure = structure_of(*m_inner);
+            rec->m_shash     = fnv(samples.data(), static_cast<size_t>(samples.size()) * sizeof(tensor_size_t));
+            rec->m_samples   = samples;
+            rec->m_gradients = gradients;
+            rec->m_fitted    = m_inner->clone();
+
+            m_rec = rec;
+
+            const std::scoped_lock lock(g_log_mutex);
+            if (std::getenv("C18_TRACE") != nullptr) // debugging aid: the fits in the order they were logged
+            {
+                std::fprintf(stderr, "TRACE #%zu thread=%zx %s samples=%016llx n=%lld g0=%.17g score=%.17g %s\n", g_log.size(),
+                             std::hash<std::thread::id>{}(std::this_thread::get_id()) & 0xffffU, rec->m_proto.c_str(),
+                             static_cast<unsigned long long>(rec->m_shash), static_cast<long long>(samples.size()),
+                             gradients(samples(0)), score, rec->m_structure.c_str());
+            }
+            g_log.push_back(std::move(rec));
+        }
+        return score;
+    }
+
+    void do_predict(const dataset_t& dataset, indices_cmap_t samples, tensor4d_map_t outputs) const override
+    {
+        if (m_rec)
+        {
+            m_rec->m_predicted = true;
+        }
+        m_inner->predict(dataset, samples, outputs);
+    }
+
+    cluster_t do_split(const dataset_t& dataset, const indices_t& samples) const override
+    {
+        return m_inner->split(dataset, samples);
+    }
+
+private:
+    rwlearner_t m_inner;
+    rcall_rec_t m_rec; ///< the record of the fit this object (or the object it was cloned from) made
+};
+
+// The boosting loop stops (`gstate.x().min() < epsilon`, gboost/model.cpp:159) when the scale fitted for the round's weak
+// learner is below the machine epsilon. The optimal scale is EXACTLY zero - rounding noise of either sign in binary64 - when
+// the learner repeats the structure of the previous round (the least-squares scale of that round made the residuals
+// orthogonal to it; it is selected again because it is fitted on a bootstrap / sub-sample, or because AIC / BIC prefer its
+// smaller parameter count): whether the booster stops there or goes on is then decided by noise. Count the winners of a
+// round that were never scaled (the loop stopped) or were scaled by less than 1e-10 (it went on).
+long long degenerate_scalings(const call_log_t& log)
+{
+    long long count = 0;
+    for (const auto& rec : log)
+    {
+        if (rec->m_predicted && (!rec->m_scaled || rec->m_tiny))
+        {
+            ++count;
+        }
+    }
+    return count;
+}
+
+// max-norm difference of two gradient tensors relative to the larger max-norm
+double gradient_diff(const tensor4d_t& a, const tensor4d_t& b)
+{
+    if (a.size() != b.size())
+    {
+        return std::numeric_limits<double>::infinity();
+    }
+    double diff = 0.0, norm = 0.0;
+    for (tensor_size_t i = 0; i < a.size(); ++i)
+    {
+        diff = std::max(diff, std::fabs(a(i) - b(i)));
+        norm = std::max({norm, std::fabs(a(i)), std::fabs(b(i))});
+    }
+    return (diff == 0.0) ? 0.0 : diff / std::max(norm, 1e-300);
+}
+
+// residual sum of squares of a fitted learner on the inputs (fit samples, gradients) of a call; also Σ residual²
+std::pair<double, double> rss_on(const wlearner_t& learner, const dataset_t& dataset, const call_rec_t& inputs)
+{
+    const auto predictions = learner.predict(dataset, inputs.m_samples);
+    const auto tsize       = predictions.size() / std::max(tensor_size_t{1}, inputs.m_samples.size());
+    double     rss = 0.0, total = 0.0;
+    for (tensor_size_t i = 0; i < inputs.m_samples.size(); ++i)
+    {
+        for (tensor_size_t k = 0; k < tsize; ++k)
+        {
+            const auto residual = -inputs.m_gradients(inputs.m_samples(i) * tsize + k);
+            const auto delta    = residual - predictions(i * tsize + k);
+            rss += delta * delta;
+            total += residual * residual;
+        }
+    }
+    return {rss, total};
+}
+
+// Every weak-learner fit of this configuration (`cfg`) is matched with the reference configuration's fits of the same
+// prototype on the same fit samples whose gradients agree within `band` (relative, max-norm): the same computation up to
+// rounding noise - whatever booster (trial, fold), round or thread it ran in, kept by early stopping or not. A fit without
+// such a partner is downstream of an earlier difference and says nothing. A fit whose partners all fitted another structure
+// is a selection that flipped: its numbers are reported (the worst one of the configuration).
+void print_divergence(out_t& out, const call_log_t& ref, const call_log_t& cfg, const dataset_t& dataset)
+{
+    constexpr auto band = 1e-6;
+
+    long long matched = 0, flips = 0;
+    double    max_gdiff = 0.0, worst = -1.0;
+    out_t     worst_out;
+    for (const auto& pc : cfg)
+    {
+        const auto&       c        = *pc;
+        const call_rec_t* closest  = nullptr;
+        auto              closest_d = std::numeric_limits<double>::infinity();
+        auto              agreed   = false;
+        auto              agreed_d = std::numeric_limits<double>::infinity();
+        for (const auto& pr : ref)
+        {
+            const auto& r = *pr;
+            if (r.m_proto != c.m_proto || r.m_shash != c.m_shash || r.m_samples.size() != c.m_samples.size())
+            {
+                continue;
+            }
+            const auto gd = gradient_diff(r.m_gradients, c.m_gradients);
+            if (!(gd <= band))
+            {
+                continue;
+            }
+            if (r.m_structure == c.m_structure)
+            {
+                agreed   = true;
+                agreed_d = std::min(agreed_d, gd);
+            }
+            if (gd < closest_d)
+            {
+                closest_d = gd;
+                closest   = &r;
+            }
+        }
+        if (closest == nullptr)
+        {
+            continue;
+        }
+        ++matched;
+        // bit-identical inputs must give the identical fit, whatever other partners exist
+        if (agreed && !(closest_d == 0.0 && closest->m_structure != c.m_structure))
+        {
+            max_gdiff = std::max(max_gdiff, agreed_d);
+            continue;
+        }
+        ++flips;
+        const auto& r              = *closest;
+        const auto [rss_cr, tot_c] = rss_on(*r.m_fitted, dataset, c); // the reference's learner on my inputs
+        const auto [rss_cc, tot_2] = rss_on(*c.m_fitted, dataset, c);
+        const auto [rss_rc, tot_r] = rss_on(*c.m_fitted, dataset, r); // my learner on the reference's inputs
+        const auto [rss_rr, tot_4] = rss_on(*r.m_fitted, dataset, r);
+        (void)tot_2;
+        (void)tot_4;
+        const auto mc   = (rss_cr - rss_cc) / std::max(tot_c, 1e-300);
+        const auto mr   = (rss_rc - rss_rr) / std::max(tot_r, 1e-300);
+        const auto ds   = std::fabs(r.m_score - c.m_score) / std::max({1.0, std::fabs(r.m_score), std::fabs(c.m_score)});
+        // (the candidates of one prototype have the same number of parameters: every criterion is monotone in the RSS)
+        const auto bad = (closest_d == 0.0) ? std::numeric_limits<double>::infinity() : std::max({ds, std::fabs(mc), std::fabs(mr)});
+        if (bad > worst)
+        {
+            worst     = bad;
+            worst_out = out_t{};
+            worst_out << c.m_proto << closest_d << (closest_d == 0.0 ? 1 : 0) << r.m_score << c.m_score << mc << mr;
+        }
+    }
+    out << "D";
+    if (flips == 0)
+    {
+        out << "same" << static_cast<long long>(cfg.size()) << matched << max_gdiff;
+    }
+    else
+    {
+        out << "flip" << static_cast<long long>(cfg.size()) << matched << flips;
+        out.raw(worst_out.str());
     }
 }
 
@@ -933,6 +1248,7 @@ std::string fit_gboost(toks_t& toks)
     g.shrinkage        = toks.s();
     g.subsample        = toks.s();
     g.protos           = toks.s();
+    const auto crit    = toks.s();
     g.gseed            = toks.i64();
     const auto noise   = toks.f();
     g.batch            = toks.i64();
@@ -950,14 +1266,20 @@ std::string fit_gboost(toks_t& toks)
     {
         throw bad_op("loss id");
     }
-
-    out_t out;
-    out << "ok" << static_cast<long long>(configs.size());
-    for (const auto& config : configs)
+    if (crit != "rss" && crit != "aic" && crit != "aicc" && crit != "bic")
     {
-        const auto scoped  = scoped_config_t{config, c.a.seed};
-        const auto dataset = make_dataset(datasource, static_cast<size_t>(config.dsthreads));
-        const auto samples = fit_samples(dataset.samples());
+        throw bad_op("criterion");
+    }
+
+    out_t      out;
+    call_log_t reference;
+    out << "ok" << static_cast<long long>(configs.size());
+    for (size_t iconfig = 0; iconfig < configs.size(); ++iconfig)
+    {
+        const auto& config  = configs[iconfig];
+        const auto  scoped  = scoped_config_t{config, c.a.seed};
+        const auto  dataset = make_dataset(datasource, static_cast<size_t>(config.dsthreads));
+        const auto  samples = fit_samples(dataset.samples());
 
         auto splitter = splitter_t::all().get("k-fold");
         splitter->parameter("splitter::seed")  = c.split_seed;
@@ -981,7 +1303,8 @@ std::string fit_gboost(toks_t& toks)
             {
                 throw bad_op("wlearner id");
             }
-            prototypes.emplace_back(std::move(wlearner));
+            wlearner->parameter("wlearner::criterion") = crit;
+            prototypes.emplace_back(std::make_unique<traced_wlearner_t>(std::move(wlearner)));
         }
         model.prototypes(std::move(prototypes));
 
@@ -991,15 +1314,53 @@ std::string fit_gboost(toks_t& toks)
         solver->parameter("solver::epsilon")   = 1e-10;
         solver->parameter("solver::max_evals") = 1000;
         const auto fit_params = ml::params_t{}.splitter(*splitter).tuner(*tuner).solver(*solver).logger(make_null_logger());
-        const auto result     = model.fit(dataset, samples, *loss, fit_params);
+        {
+            const std::scoped_lock lock(g_log_mutex);
+            g_log.clear();
+        }
+        const auto result = model.fit(dataset, samples, *loss, fit_params);
         remove_logs(result);
+        call_log_t log;
+        {
+            const std::scoped_lock lock(g_log_mutex);
+            log.swap(g_log);
+        }
+        if (std::getenv("C18_TRACE") != nullptr) // debugging aid: the kept rounds of every booster
+        {
+            for (tensor_size_t trial = 0; trial < result.trials(); ++trial)
+            {
+                for (tensor_size_t fold = 0; fold < result.folds(); ++fold)
+                {
+                    const auto* const pgboost = std::any_cast<gboost::result_t>(&result.extra(trial, fold));
+                    for (tensor_size_t r = 0; pgboost != nullptr && r < pgboost->m_statistics.size<0>(); ++r)
+                    {
+                        const auto& st = pgboost->m_statistics;
+                        std::fprintf(stderr, "STAT config=%zu trial=%d fold=%d round=%d train=%.17g/%.17g valid=%.17g/%.17g fcalls=%g status=%g\n",
+                                     iconfig, static_cast<int>(trial), static_cast<int>(fold), static_cast<int>(r), st(r, 0), st(r, 1),
+                                     st(r, 2), st(r, 3), st(r, 5), st(r, 7));
+                    }
+                }
+            }
+        }
 
         std::vector<indices_t> features;
         for (const auto& wlearner : model.wlearners())
         {
             features.push_back(wlearner->features());
         }
-        print_fit(out, dataset, result, features, model.predict(dataset, arange(0, dataset.samples())), c.a, dup);
+        print_fit(out, dataset, result, features, model.predict(dataset, arange(0, dataset.samples())));
+
+        out << "Z" << degenerate_scalings(log);
+        if (iconfig == 0U)
+        {
+            out << "D"
+                << "ref";
+            reference = std::move(log);
+        }
+        else
+        {
+            print_divergence(out, reference, log, dataset);
+        }
     }
     return out.str();
 }
@@ -1057,7 +1418,9 @@ std::string fit_linear(toks_t& toks)
         const auto result     = model->fit(dataset, samples, *loss, fit_params);
         remove_logs(result);
 
-        print_fit(out, dataset, result, {}, model->predict(dataset, arange(0, dataset.samples())), c.a, dup);
+        print_fit(out, dataset, result, {}, model->predict(dataset, arange(0, dataset.samples())));
+        out << "Z" << 0 << "D"
+            << "ref";
     }
     return out.str();
 }
@@ -1126,16 +1489,14 @@ std::string op_wfit(toks_t& toks)
             out << score;
             if (score == wlearner_t::no_fit_score())
             {
-                out << "h0" << 0 << 0;
+                out << "h0" << 0;
                 continue;
             }
             tensor4d_t outputs(cat_dims(all_samples.size(), dataset.target_dims()));
             outputs.zero();
             wlearner->predict(dataset, all_samples, outputs.tensor());
             out << hash_tensor(outputs);
-            const auto features = wlearner->features();
-            print_features(out, {features}, a, dup, false);
-            print_features(out, {features}, a, dup, true);
+            print_features(out, {wlearner->features()});
         }
     }
     return out.str();
@@ -1273,13 +1634,13 @@ std::string op_reduce_sum(toks_t& toks)
     return out.str();
 }
 
-struct cache_t // the part of every weak learner's cache that min_reduce looks at
+struct cache_t // the part of every weak learner's cache that min_reduce_feature looks at
 {
     scalar_t      m_score{wlearner_t::no_fit_score()};
     tensor_size_t m_feature{-1};
 };
 
-std::string op_reduce_min(toks_t& toks)
+std::string op_reduce_min(toks_t& toks, const bool lexicographic_cache)
 {
     const auto W = toks.i64();
     const auto K = toks.i64();
@@ -1297,8 +1658,11 @@ std::string op_reduce_min(toks_t& toks)
         {
             throw bad_op("worker");
         }
-        auto& cache = caches[static_cast<size_t>(w)];
-        if (std::isfinite(score) && score < cache.m_score) // stump.cpp:146, affine.cpp, table.cpp, hinge.cpp, dtree.cpp
+        auto&      cache  = caches[static_cast<size_t>(w)];
+        const auto better = lexicographic_cache
+                              ? (score < cache.m_score || (score == cache.m_score && feature < cache.m_feature)) // table.cpp:72,110,164
+                              : (score < cache.m_score); // stump.cpp:146, affine.cpp:112, hinge.cpp:205,217
+        if (std::isfinite(score) && better)
         {
             cache.m_score   = score;
             cache.m_feature = feature;
@@ -1308,9 +1672,86 @@ std::string op_reduce_min(toks_t& toks)
     {
         throw bad_op("trailing tokens");
     }
-    const auto& best = ::nano::min_reduce(caches);
+    const auto& best = ::nano::min_reduce_feature(caches); // the call of every weak-learner fit since commit 62472c9
     out_t       out;
     out << "ok" << best.m_score << best.m_feature;
+    return out.str();
+}
+
+// ---- the table learners run two loops (single-label, then multi-label features) into the same per-thread caches. On a
+// dataset whose multi-label features have the SMALLER indices a worker sees decreasing indices across the two loops; with
+// "first seen wins" inside a cache (before commit 5de0896) an exact tie between a single-label and a multi-label feature was
+// decided by which worker processed what (1 thread: the single-label feature 3; several threads: 3 or 0).
+class tie_datasource_t final : public datasource_t
+{
+public:
+    tie_datasource_t()
+        : datasource_t("tie")
+    {
+    }
+
+    rdatasource_t clone() const override { return std::make_unique<tie_datasource_t>(*this); }
+
+private:
+    void do_load() override
+    {
+        features_t features;
+        features.push_back(feature_t{"s0"}.sclass(2U));
+        features.push_back(feature_t{"s1"}.sclass(2U));
+        features.push_back(feature_t{"m0"}.mclass(1U));
+        features.push_back(feature_t{"m1"}.mclass(1U));
+        features.push_back(feature_t{"y"}.scalar(feature_type::float64));
+        resize(8, features, 4U);
+        for (tensor_size_t sample = 0; sample < 8; ++sample)
+        {
+            tensor_mem_t<int8_t, 1> hits(1);
+            set(sample, 0, static_cast<int32_t>((sample / 2) % 2));
+            set(sample, 1, static_cast<int32_t>(sample % 2));
+            hits(0) = static_cast<int8_t>(sample % 2); // the same partition as s1
+            set(sample, 2, hits);
+            hits(0) = static_cast<int8_t>(sample / 4);
+            set(sample, 3, hits);
+            set(sample, 4, 0.0);
+        }
+    }
+};
+
+std::string op_wtie_mclassfirst(toks_t& toks)
+{
+    const auto wid       = toks.s();
+    const auto dsthreads = toks.i64();
+    const auto reps      = toks.i64();
+    if (dsthreads < 1 || dsthreads > 64 || reps < 1 || reps > 10000 || !toks.done())
+    {
+        throw bad_op("wtie arguments");
+    }
+    if (wid != "dense-table" && wid != "kbest-table" && wid != "ksplit-table" && wid != "dstep-table")
+    {
+        throw bad_op("wtie wlearner");
+    }
+    auto datasource = tie_datasource_t{};
+    datasource.load();
+    auto dataset = dataset_t{datasource, static_cast<size_t>(dsthreads)};
+    dataset.add<mclass_identity_generator_t>(); // dataset features 0, 1 = m0, m1
+    dataset.add<sclass_identity_generator_t>(); // dataset features 2, 3 = s0, s1
+
+    tensor4d_t gradients(cat_dims(dataset.samples(), dataset.target_dims()));
+    for (tensor_size_t i = 0; i < 8; ++i)
+    {
+        gradients(i) = (i % 2 == 0 ? 1.0 : -1.0) * (i < 4 ? 1.0 : 2.0);
+    }
+    const auto samples = arange(0, dataset.samples());
+
+    out_t out;
+    out << "ok" << reps;
+    for (int64_t rep = 0; rep < reps; ++rep)
+    {
+        auto wlearner                             = wlearner_t::all().get(wid);
+        wlearner->parameter("wlearner::criterion") = wlearner_criterion::rss;
+        const auto score                          = wlearner->fit(dataset, samples, gradients);
+        const auto features                       = wlearner->features();
+        out << (score == wlearner_t::no_fit_score() || features.size() != 1 ? tensor_size_t{-1} : features(0));
+    }
     return out.str();
 }
 
@@ -1393,6 +1834,15 @@ std::string vh::execute(toks_t& toks, std::string&)
         }
         throw bad_op("fit kind");
     }
+    if (fam == "wtie")
+    {
+        const auto op = toks.s();
+        if (op == "mclassfirst")
+        {
+            return op_wtie_mclassfirst(toks);
+        }
+        throw bad_op("wtie op");
+    }
     if (fam == "reduce")
     {
         const auto op = toks.s();
@@ -1402,7 +1852,11 @@ std::string vh::execute(toks_t& toks, std::string&)
         }
         if (op == "min")
         {
-            return op_reduce_min(toks);
+            return op_reduce_min(toks, false);
+        }
+        if (op == "minlex")
+        {
+            return op_reduce_min(toks, true);
         }
         throw bad_op("reduce op");
     }
